@@ -132,7 +132,10 @@ Definition disc_step (fd : fragdict) (st : graph * fgraphs) (mn : nrec) : res (g
   | Some (name, frag) =>
       '(mol1, corr) <- merge_graphs mol frag ;;
       gf <- frag_graph_of mol1 frag corr (nk mn) name ;;
-      let mol2 := fold_left (fun acc n => set_node_attr acc (map_get corr (nk n)) (S "mapping")
+      (* per template node: molecule.nodes[new]['fragid'] = [meta_node] (the COARSE KEY, /repo fa307dd),
+         then the deep copy for graph_frag, then molecule.nodes[new]['mapping'] = [(fragname, node)] *)
+      let mol2 := fold_left (fun acc n => set_node_attr (set_node_attr acc (map_get corr (nk n)) (S "fragid") (VList [VInt (nk mn)]))
+                                                        (map_get corr (nk n)) (S "mapping")
                                                         (mapping_val name (nk n))) frag mol1 in
       Ok (mol2, fg_set (nk mn) gf fgs)
   end.
